@@ -120,7 +120,17 @@ def gen_jobs(rnd, n, fail_at=None):
             else:
                 nodes.append({"processor": "TMerge"} if kind != "empty-coll" else {"processor": "TMerge"})
                 nodes.append({"processor": "TMerge"})
-        jobs.append({"nodes": nodes, "ctx": ctx, "data": data, "fails": fail_at == k, "kind": kind})
+        job = {"nodes": nodes, "ctx": ctx, "data": data, "fails": fail_at == k, "kind": kind}
+        # a payload whose context already carries a `job_id` key: a literal of the caller's, or the id of the job enqueued just
+        # before (what a caller gets who chains jobs or fans one context out to several): the annotation is this job's id all the same
+        r = rnd.random()
+        if r < 0.12:
+            ctx["job_id"] = rnd.choice(["user-42", "00000000-0000-0000-0000-000000000000", 7])
+            job["kind"] = kind + "+own-job-id-key"
+        elif r < 0.24 and k > 0:
+            job["ctx_job_id_of_previous"] = True
+            job["kind"] = kind + "+previous-job-id-key"
+        jobs.append(job)
     return jobs
 
 
@@ -177,7 +187,10 @@ def run_batch(jobs, n_workers, switch, delays, fast=True, grace=6.0):
         for job, delay in zip(jobs, delays):
             if delay:
                 time.sleep(delay)
-            fut = orch.enqueue(copy.deepcopy(job["nodes"]), data=make_data(job["data"]), context=ContextType(copy.deepcopy(job["ctx"])),
+            ctx = copy.deepcopy(job["ctx"])
+            if job.get("ctx_job_id_of_previous") and futures:
+                ctx["job_id"] = next((jid for jid, f in list(orch.pending_futures.items()) if f is futures[-1]), "finished-job-id")
+            fut = orch.enqueue(copy.deepcopy(job["nodes"]), data=make_data(job["data"]), context=ContextType(ctx),
                                return_future=True)
             futures.append(fut)
         # wait for quiescence: every future done, or nothing left anywhere for `grace` seconds
@@ -391,7 +404,8 @@ def judge(jobs, results):
         elif jid in seen_ids:
             yield ("duplicate-job-id", f"jobs {seen_ids[jid]} and {k} completed with the same job id", dict(where, job_id=jid))
         seen_ids[jid] = k
-        if data != want[1] or sorted([k2, v] for k2, v in ctxd.items()) != want[2]:
+        want_ctx = [kv for kv in want[2] if kv[0] != "job_id"]      # a job_id key of the caller's is replaced by the annotation
+        if data != want[1] or sorted([k2, v] for k2, v in ctxd.items()) != want_ctx:
             other = next((j for j, jb in enumerate(jobs) if j != k and direct(jb)[:2] == ("ok", data)), None)
             yield ("cross-talk" if other is not None else f"result-differs-from-direct:{job['kind']}",
                    f"the Future of job {k} completed with {'the result of job %d' % other if other is not None else 'a result other than that of running its pipeline directly'}",
